@@ -22,7 +22,8 @@ func main() {
 		"every member position and in two-position Variants (also below an alias), Iterable over entry tuples against Structs with required / Optional[k] / " +
 		"implicitly optional keys, Enums that repeat a value, random types over all of it. Histories: clusters of related type objects kept alive " +
 		"(hand-made, one kind, related by acceptance) + the types inferred for their values; every other public operation on every argument tuple, then " +
-		"random long sequences; after each operation the answers are compared with those of separately built objects"
+		"random long sequences; after each operation the answers are compared with those of separately built objects. " +
+		"Fifth wave: two distinct alias objects with one name and different definitions (Go constructor under a fixed name; declarations in root contexts of their own) alone and in 17 member positions"
 	pcore.Do(func(c px.Context) {
 		if cfg.Replay != "" {
 			replay(cfg, res)
@@ -87,6 +88,11 @@ func run(cfg *lib.Config, res *lib.Result) {
 	x3 := lat.Ext3Types(lib.NewRng(cfg.Seed^0x5eed04), cfg.Thorough())
 	xt = append(xt, x3...)
 	xv = append(xv, lat.Ext3Values(x3)...)
+	// fifth wave: two distinct alias objects with one name and different definitions (Go constructor, and declarations in
+	// contexts of their own), alone and in every member position
+	x5 := lat.Ext5Types(lib.NewRng(cfg.Seed^0x5eed05), cfg.Thorough())
+	xt = append(xt, x5...)
+	xv = append(xv, lat.Ext5Values(x5)...)
 	u := lat.NewUniverseWith(rng, nRandom, 0, xt, xv)
 	u.FillInst()
 	u.FillAsg()
@@ -97,8 +103,11 @@ func run(cfg *lib.Config, res *lib.Result) {
 	res.Extra["values"] = len(u.V)
 	for _, sp := range u.Specs {
 		switch sp.K {
-		case "FloatB", "ValType", "Decl", "DeclOnce":
+		case "FloatB", "ValType", "Decl", "DeclOnce", "CtxDecl":
 			res.Count("pool.type." + sp.K)
+		}
+		if lat.IsCtxDecl(sp) {
+			res.Count("pool.type.holds-CtxDecl")
 		}
 	}
 	for _, vs := range u.VSpec {
